@@ -760,6 +760,14 @@ func Eval(v ssa.Value, env Env) (constant.Value, bool) {
 			return constant.MakeBool(constant.Compare(a, x.Op, b)), true
 		case token.ADD, token.SUB, token.MUL:
 			return constant.BinaryOp(a, x.Op, b), true
+		case token.QUO, token.REM:
+			if a.Kind() == constant.Int && b.Kind() == constant.Int && constant.Sign(b) != 0 {
+				if x.Op == token.QUO {
+					return constant.BinaryOp(a, token.QUO_ASSIGN, b), true // integer division
+				}
+				return constant.BinaryOp(a, token.REM, b), true
+			}
+			return nil, false
 		case token.LAND, token.LOR:
 			return constant.BinaryOp(a, x.Op, b), true
 		}
